@@ -28,6 +28,8 @@ class Interner:
 
     def __call__(self, s):
         s = s.lower()
+        if s.startswith("block:"):
+            s = "block:#"      # synthetic names of unnamed BLOCKs come from a process-wide counter
         if s not in self.m:
             self.m[s] = len(self.m)
         return self.m[s]
@@ -232,3 +234,40 @@ if __name__ == "__main__":
             print(std, kw, "AGREE" if ok else "DIFF", m["kind"], m["cost"], r["cost"], "queries", m["queries"])
             for d in diffs:
                 print("   ", d[:300])
+
+
+# ------------------------------------------------------------------ batch interface (Leg C)
+_models = {}
+
+
+def _worker_case(case):
+    std, src, kw = case
+    if std not in _models:
+        _models[std] = Model(std)
+    try:
+        ok, diffs, m, r = compare(std, src, model=_models[std], **kw)
+    except RuntimeError:
+        _models.pop(std, None)
+        raise
+    return dict(ok=ok, diffs=diffs, kind=r["raw_kind"], mkind=m["kind"], cost=r["cost"], queries=m["queries"],
+                nitems=m["nitems"])
+
+
+def corr_cases(cases, nproc=None):
+    """cases: list of (std, src, kwargs).  Returns summary dict with disagreements."""
+    import pool
+    res = pool.pmap(_worker_case, cases, nproc=nproc, chunksize=2)
+    dis = []
+    kinds = {}
+    harness = []
+    distinct = set()
+    for case, (st, r) in zip(cases, res):
+        if st != "ok":
+            harness.append(dict(case=case, error=r))
+            continue
+        kinds[r["kind"]] = kinds.get(r["kind"], 0) + 1
+        distinct.add(hash(case[1]))
+        if not r["ok"]:
+            dis.append(dict(std=case[0], src=case[1], opts=case[2], diffs=r["diffs"]))
+    return dict(cases=len(cases), distinct=len(distinct), outcome_histogram=kinds, disagreements=dis,
+                harness_errors=harness[:3], n_harness_errors=len(harness))
